@@ -207,29 +207,29 @@ type objHdr struct {
 }
 
 type sched struct {
-	cfg      Config
-	chooser  Chooser
-	epoch    uint64
-	threads  []*thread
-	cur      *thread
-	steps    int
-	ticks    int
-	nextOid  int32
-	aborting bool
-	ended    bool
-	returned bool
-	out      Outcome
-	chans    map[unsafe.Pointer]*chanState
-	keys     map[any]*objHdr
-	trace    []Event
-	hb       uint64
-	done     chan struct{}
-	opts     []Opt
-	optT     []*thread
-	wg       sync.WaitGroup
-	results  map[string]any
+	cfg        Config
+	chooser    Chooser
+	epoch      uint64
+	threads    []*thread
+	cur        *thread
+	steps      int
+	ticks      int
+	nextOid    int32
+	aborting   bool
+	ended      bool
+	returned   bool
+	out        Outcome
+	chans      map[unsafe.Pointer]*chanState
+	keys       map[any]*objHdr
+	trace      []Event
+	hb         uint64
+	done       chan struct{}
+	opts       []Opt
+	optT       []*thread
+	wg         sync.WaitGroup
+	results    map[string]any
 	curDeliver *chanState
-	foreign  objHdr
+	foreign    objHdr
 }
 
 var (
